@@ -2,6 +2,7 @@
   XotModel.Lemmas.SpanDescStep — the C17 description invariant `DInv` through every arm of `_parse`,
   the token loop, and the epilogues: an accepted tree is described, node by node, by the tokens.
 -/
+import XotModel.Lemmas.ParseQName
 import XotModel.Lemmas.SpanDescOpen
 
 namespace XotModel
@@ -85,6 +86,7 @@ theorem openElement_cur {b b1 : Builder} (hr : b.openElement = .ok b1) : ∃ id,
 
 theorem step_dinv {ts done : List Token} {b b' : Builder} (t : Token) (hok : BuilderOk b) (h : DInv ts done b)
     (hpre : done ++ [t] <+: ts) (hr : b.step t = .ok b') : DInv ts (done ++ [t]) b' := by
+  replace hr := Builder.step_ok_core hr
   have htok : t ∈ ts := mem_of_snoc_prefix hpre
   have helem : b.parents ≠ [] → ∃ id, b.cur.value = .element id := by
     intro hne
@@ -97,7 +99,7 @@ theorem step_dinv {ts done : List Token} {b b' : Builder} (t : Token) (hok : Bui
       cases hv : b.cur.value <;> simp_all [Value.isElement]
   cases t with
   | «attribute» pfx loc value sp =>
-    simp only [Builder.step] at hr
+    simp only [Builder.stepCore] at hr
     have hprefix : ∀ p u s, b.prefix p u s = .ok b' → DInv ts (done ++ [.attribute pfx loc value sp]) b' := by
       intro p u s hr
       unfold Builder.prefix at hr
@@ -149,7 +151,7 @@ theorem step_dinv {ts done : List Token} {b b' : Builder} (t : Token) (hok : Bui
               · exact h2 ab hab
               · exact ⟨pfx, loc, value, sp, htok, rfl, rfl, rfl, rfl, hv⟩
   | text t =>
-    simp only [Builder.step, Builder.text] at hr
+    simp only [Builder.stepCore, Builder.text] at hr
     split at hr
     · cases hr
     · next content hc =>
@@ -158,7 +160,7 @@ theorem step_dinv {ts done : List Token} {b b' : Builder} (t : Token) (hok : Bui
       refine addText_dinv h hpre rfl rfl ?_
       simp only [runValue, hc, List.append_nil]
   | cdata t sp =>
-    simp only [Builder.step, Builder.cdata] at hr
+    simp only [Builder.stepCore, Builder.cdata] at hr
     split at hr
     · next hemp =>
       simp only [Step.ok.injEq] at hr
@@ -170,7 +172,7 @@ theorem step_dinv {ts done : List Token} {b b' : Builder} (t : Token) (hok : Bui
       refine addText_dinv h hpre (by simpa [Token.isReal] using hemp) rfl ?_
       simp only [runValue, Option.map_some, List.append_nil]
   | elementStart pfx loc sp =>
-    simp only [Builder.step, Builder.element, Step.ok.injEq] at hr
+    simp only [Builder.stepCore, Builder.element, Step.ok.injEq] at hr
     subst hr
     refine passive_dinv h hpre rfl rfl rfl rfl rfl (EnvApp.refl _) ?_
     intro e he
@@ -181,7 +183,7 @@ theorem step_dinv {ts done : List Token} {b b' : Builder} (t : Token) (hok : Bui
     cases e with
     | «open» => exact openElement_dinv h hpre hr
     | close pfx loc =>
-      simp only [Builder.step] at hr
+      simp only [Builder.stepCore] at hr
       unfold Builder.closeElement at hr
       cases hn : elementNameId b.env b.nsStack pfx.text loc.text pfx.span with
       | panic => rw [hn] at hr; cases hr
@@ -203,7 +205,7 @@ theorem step_dinv {ts done : List Token} {b b' : Builder} (t : Token) (hok : Bui
           · exact leave_dinv (b1 := { b with env := env1, nsStack := b.nsStack.tail, openPrefixes := b.openPrefixes.tail })
               h hpre hid htok (by intro hh; cases hh) rfl rfl rfl rfl rfl happ hr
     | empty =>
-      simp only [Builder.step] at hr
+      simp only [Builder.stepCore] at hr
       cases hb : b.openElement with
       | ok b1 =>
         rw [hb] at hr
@@ -217,7 +219,7 @@ theorem step_dinv {ts done : List Token} {b b' : Builder} (t : Token) (hok : Bui
       | err e env => rw [hb] at hr; cases hr
       | panic => rw [hb] at hr; cases hr
   | comment t sp =>
-    simp only [Builder.step, Builder.comment, Step.ok.injEq] at hr
+    simp only [Builder.stepCore, Builder.comment, Step.ok.injEq] at hr
     subst hr
     exact addLeaf_dinv (done' := done ++ [.comment t sp]) h hpre (.comment (normalizeLineEnds t.text)) _ b.env (EnvApp.refl _)
       (by intro n w hh; cases hh) (by intro p n hh; cases hh)
@@ -229,7 +231,7 @@ theorem step_dinv {ts done : List Token} {b b' : Builder} (t : Token) (hok : Bui
       ⟨t, sp, htok, get_add_self _ _ _, rfl⟩
       (fun s hs => by cases hs)
   | pi target content sp =>
-    simp only [Builder.step] at hr
+    simp only [Builder.stepCore] at hr
     split at hr
     · cases hr
     rename_i hres
@@ -266,16 +268,16 @@ theorem step_dinv {ts done : List Token} {b b' : Builder} (t : Token) (hok : Bui
         subst hc
         exact get_add_self _ _ _
   | declaration v e s sp =>
-    simp only [Builder.step] at hr
+    simp only [Builder.stepCore] at hr
     split at hr
     · cases hr
     · simp only [Step.ok.injEq] at hr
       subst hr
       exact passive_dinv h hpre rfl rfl rfl rfl rfl (EnvApp.refl _) h.eb
-  | dtdStart sp => simp [Builder.step] at hr
-  | dtdEnd sp => simp [Builder.step] at hr
-  | emptyDtd sp => simp [Builder.step] at hr
-  | entityDecl sp => simp [Builder.step] at hr
+  | dtdStart sp => simp [Builder.stepCore] at hr
+  | dtdEnd sp => simp [Builder.stepCore] at hr
+  | emptyDtd sp => simp [Builder.stepCore] at hr
+  | entityDecl sp => simp [Builder.stepCore] at hr
 
 theorem dinv_new (ts : List Token) (env : Env) : DInv ts [] (Builder.new env) := by
   refine ⟨List.nil_prefix, ⟨⟨trivial, rfl⟩, trivial⟩, (fun e he => by cases he), ?_, ?_⟩
